@@ -59,11 +59,20 @@ def cat_ranges(name):
     return _CAT_CACHE[name]
 
 
+_INR_CACHE: dict = {}
+
+
 def in_ranges(c, ranges):
     """c: python int or z3 Int term."""
     if isinstance(c, int):
         return any(lo <= c <= hi for lo, hi in ranges)
-    return Or(*[(c == lo) if lo == hi else z3.And(c >= lo, c <= hi) for lo, hi in ranges])
+    key = (c.get_id(), id(ranges))
+    ent = _INR_CACHE.get(key)
+    if ent is None or not ent[0].eq(c):
+        t = Or(*[(c == lo) if lo == hi else z3.And(c >= lo, c <= hi) for lo, hi in ranges])
+        ent = (c, ranges, t)  # holding c and ranges keeps both ids stable
+        _INR_CACHE[key] = ent
+    return ent[2]
 
 
 # a char predicate is a python function: c -> (python bool | z3 Bool)
@@ -246,6 +255,19 @@ def match_term(pattern: str, flags: int, chars, mode="match"):
     chars: tuple of python ints / z3 Int terms (the string, concrete length).
     mode: 'match' (anchored at 0), 'fullmatch', 'search'.
     """
+    ckey = (pattern, flags, mode, tuple(c if isinstance(c, int) else c.get_id() for c in chars))
+    ent = _MATCH_CACHE.get(ckey)
+    if ent is not None and all(isinstance(a, int) or a.eq(b) for a, b in zip(ent[0], chars)):
+        return ent[1]
+    r = _match_term(pattern, flags, chars, mode)
+    _MATCH_CACHE[ckey] = (tuple(chars), r)
+    return r
+
+
+_MATCH_CACHE: dict = {}
+
+
+def _match_term(pattern, flags, chars, mode):
     nfa, s0, fin = compile_nfa(pattern, flags)
     n = len(chars)
     last_is_nl = None  # term: chars[n-1] == '\n'
